@@ -168,4 +168,8 @@ def _argsig(P, a):
             g = P.mod.globals.get(b.v)
             if g is not None and g.bytes is not None:
                 return repr(g.bytes.rstrip(b"\0").decode("latin1"))
-    return P.path(a)
+    if a.kind == "int":
+        return str(a.v)
+    # anything that is not a literal is shown as '_': the signature (and with it a known-finding key) must not depend on the
+    # names of locals and parameters
+    return "_"
